@@ -17,7 +17,7 @@ var alphabet = []byte{0x7e, 0x7d, 0x01, 0x02, 0x00, 0x41}
 
 func c01(c *Ctx) {
 	defer DrainFrameProblems(c, "C01")
-	c.Rule = "source headers {2013,2019} x {fragmented,not} x {enc bit} x phones x serials (built by an independent frame builder and decoded by the real Decode), reply ids {0, fixed, random}, platform serials {0,1,0x7d,0x7e,0x7d7e,65535,random}; bodies: every length 0..40 and 990..1023, all strings over {7e,7d,01,02,00,41} up to length 4 (5 thorough) at the start / end / middle of a filler, bodies solved for checksum 0x7d / 0x7e, all-7e and all-7d bodies of 1023 bytes, random; non-trivial = body contains a byte that needs escaping or length >= 990 or checksum is special; distinct = distinct request"
+	c.Rule = "source headers {2013,2019 with version-number bytes 0,1,2,3,4,7d,7e,ff} x {fragmented,not} x {enc bit} x phones x serials (built by an independent frame builder and decoded by the real Decode), reply ids {0, fixed, random}, platform serials {0,1,0x7d,0x7e,0x7d7e,65535,random}; bodies: every length 0..40 and 990..1023, all strings over {7e,7d,01,02,00,41} up to length 4 (5 thorough) at the start / end / middle of a filler, bodies solved for checksum 0x7d / 0x7e, all-7e and all-7d bodies of 1023 bytes, random; non-trivial = body contains a byte that needs escaping or length >= 990 or checksum is special; distinct = distinct request"
 	rng := c.Rng
 	srcs := sources(rng)
 	pss := []uint16{0, 1, 0x7d, 0x7e, 0x7d7e, 0x7e7d, 65535}
@@ -175,7 +175,13 @@ func sources(rng *rand.Rand) [][]byte {
 					rng.Read(body)
 					m := RefMsg{ID: uint16(rng.Intn(65536)), Enc: enc, Frag: frag, Ver: ver, Bcd: bcd,
 						Serial: []uint16{0, 0x7d7e, 65535, uint16(rng.Intn(65536))}[rng.Intn(4)], Sum: 3, No: 2, Body: body}
-					out = append(out, RefFrame(m))
+					// the 2019 header's protocol-version-NUMBER byte (1 today, incremented by later revisions): the decoder
+					// skips it and the reply always carries 1, so the source may carry any value
+					vb := byte(1)
+					if ver == 1 {
+						vb = []byte{1, 2, 0, 0x7e, 4, 0xff, 0x7d, 3}[len(out)%8]
+					}
+					out = append(out, RefFrameX(m, 0, vb))
 				}
 			}
 		}
